@@ -318,12 +318,17 @@ class ProcessCapabilityExchange():
 
 
     def process_request(self):
+        #: The mandatory AVPs are counted together, so the count alone does not
+        #: tell which ones were found: the peer's identity is tracked by itself.
+        origin_host_matched = origin_realm_matched = False
         for avp in self.message.avps:
             if ProcessDiameterMessage.is_valid_origin_host_avp(avp, self.connection):
                 self.checklist_mandatory_avps += 1
+                origin_host_matched = True
 
             elif ProcessDiameterMessage.is_valid_origin_realm_avp(avp, self.connection):
                 self.checklist_mandatory_avps += 1
+                origin_realm_matched = True
 
             elif ProcessDiameterMessage.is_valid_host_ip_address_avp(avp, self.connection):
                 self.checklist_mandatory_avps += 1
@@ -338,13 +343,16 @@ class ProcessCapabilityExchange():
                 self.checklist_optional_avps += 1
 
 
-        if (self.checklist_mandatory_avps == 5) and (self.checklist_optional_avps >= 0 and self.checklist_optional_avps <= 7):
+        if origin_host_matched and origin_realm_matched and (self.checklist_mandatory_avps == 5) and (self.checklist_optional_avps >= 0 and self.checklist_optional_avps <= 7):
             self.is_valid = True
         else:
             self.is_valid = False
 
 
     def process_answer(self):
+        #: The mandatory AVPs are counted together, so the count alone does not
+        #: tell which ones were found: the peer's identity is tracked by itself.
+        origin_host_matched = origin_realm_matched = False
         ProcessDiameterMessage.process_answer_from_existing_pending_request(self.association, self.message)
         for avp in self.message.avps:
             if ProcessDiameterMessage.is_valid_result_code_avp(avp):
@@ -352,9 +360,11 @@ class ProcessCapabilityExchange():
 
             if ProcessDiameterMessage.is_valid_origin_host_avp(avp, self.connection):
                 self.checklist_mandatory_avps += 1
+                origin_host_matched = True
 
             elif ProcessDiameterMessage.is_valid_origin_realm_avp(avp, self.connection):
                 self.checklist_mandatory_avps += 1
+                origin_realm_matched = True
 
             elif ProcessDiameterMessage.is_valid_host_ip_address_avp(avp, self.connection):
                 self.checklist_mandatory_avps += 1
@@ -369,7 +379,7 @@ class ProcessCapabilityExchange():
                 self.checklist_optional_avps += 1
 
 
-        if (self.checklist_mandatory_avps == 6) and (self.checklist_optional_avps >= 0 or self.checklist_optional_avps <= 7):
+        if origin_host_matched and origin_realm_matched and (self.checklist_mandatory_avps == 6) and (self.checklist_optional_avps >= 0 or self.checklist_optional_avps <= 7):
             self.is_valid = True
         else:
             self.is_valid = False
@@ -396,24 +406,32 @@ class ProcessDeviceWatchdog():
 
 
     def process_request(self):
+        #: The mandatory AVPs are counted together, so the count alone does not
+        #: tell which ones were found: the peer's identity is tracked by itself.
+        origin_host_matched = origin_realm_matched = False
         for avp in self.message.avps:
             if ProcessDiameterMessage.is_valid_origin_host_avp(avp, self.connection):
                 self.checklist_mandatory_avps += 1
+                origin_host_matched = True
 
             elif ProcessDiameterMessage.is_valid_origin_realm_avp(avp, self.connection):
                 self.checklist_mandatory_avps += 1
+                origin_realm_matched = True
 
             elif ProcessDiameterMessage.is_valid_origin_state_id_avp(avp, self.connection):
                 self.checklist_optional_avps += 1
 
 
-        if (self.checklist_mandatory_avps == 2) and (self.checklist_optional_avps == 0 or self.checklist_optional_avps == 1):
+        if origin_host_matched and origin_realm_matched and (self.checklist_mandatory_avps == 2) and (self.checklist_optional_avps == 0 or self.checklist_optional_avps == 1):
             self.is_valid = True
         else:
             self.is_valid = False
 
 
     def process_answer(self):
+        #: The mandatory AVPs are counted together, so the count alone does not
+        #: tell which ones were found: the peer's identity is tracked by itself.
+        origin_host_matched = origin_realm_matched = False
         ProcessDiameterMessage.process_answer_from_existing_pending_request(self.association, self.message)
 
         for avp in self.message.avps:
@@ -422,15 +440,17 @@ class ProcessDeviceWatchdog():
 
             if ProcessDiameterMessage.is_valid_origin_host_avp(avp, self.connection):
                 self.checklist_mandatory_avps += 1
+                origin_host_matched = True
 
             elif ProcessDiameterMessage.is_valid_origin_realm_avp(avp, self.connection):
                 self.checklist_mandatory_avps += 1
+                origin_realm_matched = True
 
             elif ProcessDiameterMessage.is_valid_origin_state_id_avp(avp, self.connection):
                 self.checklist_optional_avps += 1
 
 
-        if (self.checklist_mandatory_avps == 3) and (self.checklist_optional_avps == 0 or self.checklist_optional_avps == 1):
+        if origin_host_matched and origin_realm_matched and (self.checklist_mandatory_avps == 3) and (self.checklist_optional_avps == 0 or self.checklist_optional_avps == 1):
             self.is_valid = True
         else:
             self.is_valid = False
@@ -457,24 +477,32 @@ class ProcessDisconnectPeer():
 
 
     def process_request(self):
+        #: The mandatory AVPs are counted together, so the count alone does not
+        #: tell which ones were found: the peer's identity is tracked by itself.
+        origin_host_matched = origin_realm_matched = False
         for avp in self.message.avps:
             if ProcessDiameterMessage.is_valid_origin_host_avp(avp, self.connection):
                 self.checklist_mandatory_avps += 1
+                origin_host_matched = True
 
             elif ProcessDiameterMessage.is_valid_origin_realm_avp(avp, self.connection):
                 self.checklist_mandatory_avps += 1
+                origin_realm_matched = True
 
             elif ProcessDiameterMessage.is_valid_disconnect_cause_avp(avp):
                 self.checklist_mandatory_avps += 1
 
 
-        if (self.checklist_mandatory_avps == 3):
+        if origin_host_matched and origin_realm_matched and (self.checklist_mandatory_avps == 3):
             self.is_valid = True
         else:
             self.is_valid = False
 
 
     def process_answer(self):
+        #: The mandatory AVPs are counted together, so the count alone does not
+        #: tell which ones were found: the peer's identity is tracked by itself.
+        origin_host_matched = origin_realm_matched = False
         ProcessDiameterMessage.process_answer_from_existing_pending_request(self.association, self.message)
 
         for avp in self.message.avps:
@@ -483,12 +511,14 @@ class ProcessDisconnectPeer():
 
             if ProcessDiameterMessage.is_valid_origin_host_avp(avp, self.connection):
                 self.checklist_mandatory_avps += 1
+                origin_host_matched = True
 
             elif ProcessDiameterMessage.is_valid_origin_realm_avp(avp, self.connection):
                 self.checklist_mandatory_avps += 1
+                origin_realm_matched = True
 
 
-        if (self.checklist_mandatory_avps == 3) and (self.checklist_error_avps >= 0 and self.checklist_error_avps <= 2):
+        if origin_host_matched and origin_realm_matched and (self.checklist_mandatory_avps == 3) and (self.checklist_error_avps >= 0 and self.checklist_error_avps <= 2):
             self.is_valid = True
         else:
             self.is_valid = False
